@@ -123,6 +123,15 @@ fixed_degree_isogeny(theta_chain_t *isog,
                 TORSION_PLUS_EVEN_POWER - length,
                 TORSION_PLUS_EVEN_POWER - length - 2);
 #endif
+    // the chain of length `length` needs the strategy strategies[TORSION_PLUS_EVEN_POWER - length], the
+    // 2^(length+2)-torsion of E0 (TORSION_PLUS_EVEN_POWER - length - 2 doublings of the basis) and u < 2^length:
+    // for a u that is too small or too large there is no such isogeny to compute and the function fails
+    if (length + 2 > (int)TORSION_PLUS_EVEN_POWER ||
+        (int)TORSION_PLUS_EVEN_POWER - length >= (int)(sizeof(strategies) / sizeof(strategies[0])) ||
+        u_bitsize > length) {
+        return 0;
+    }
+
     // var init
     ibz_init(&two_pow);
     ibz_init(&tmp);
